@@ -101,7 +101,8 @@ EmptyContent(solver) ==
    func |-> [g \in GeneU |-> TRUE], member |-> [g \in GrpU |-> {}],
    ann |-> [x \in AllIds |-> 0], note |-> [x \in AllIds |-> 0], xcols |-> {}, xrows |-> {}, solver |-> solver]
 NoModel == [none |-> TRUE]
-NoDet == [present |-> FALSE, st |-> [m \in {} |-> 0], lb |-> 0, ub |-> 0, rule |-> [k |-> "none", id |-> "", ch |-> <<>>]]
+NoDet == [present |-> FALSE, st |-> [m \in {} |-> 0], lb |-> 0, ub |-> 0, rule |-> [k |-> "none", id |-> "", ch |-> <<>>],
+          sbo |-> "none", ann |-> 0, note |-> 0]
 IsModel(c) == "rxns" \in DOMAIN c
 
 MetsOfRxn(C, r) == {m \in MetU : C.S[r][m] # 0}
@@ -131,6 +132,7 @@ Canon(C) ==
             !.member = [g \in GrpU |-> IF g \in C.groups
                                        THEN C.member[g] \cap (C.rxns \cup C.mets \cup C.genes \cup C.groups)
                                        ELSE {}],
+            !.xrows = C.xrows \ C.mets,
             !.ann = [x \in AllIds |-> IF x \in (C.rxns \cup C.mets \cup C.genes \cup {"MODEL"}) THEN C.ann[x] ELSE 0],
             !.note = [x \in AllIds |-> IF x \in (C.rxns \cup C.mets \cup C.genes \cup {"MODEL"}) THEN C.note[x] ELSE 0]]
 
@@ -417,7 +419,7 @@ SRes(St, raises, atomic, ret) == [st |-> St, raises |-> raises, atomic |-> atomi
 Departed(St, s, C2) ==
   [r \in RxU |-> IF IsModel(St.m[s]) /\ r \in St.m[s].rxns /\ r \notin C2.rxns
                  THEN [present |-> TRUE, st |-> St.m[s].S[r], lb |-> St.m[s].lb[r], ub |-> St.m[s].ub[r],
-                       rule |-> St.m[s].rule[r]]
+                       rule |-> St.m[s].rule[r], sbo |-> St.m[s].sbo[r], ann |-> St.m[s].ann[r], note |-> St.m[s].note[r]]
                  ELSE St.det[s][r]]
 Lift(St, s, r) == SRes([St EXCEPT !.m[s] = r.c, !.det[s] = Departed(St, s, r.c)], r.raises, r.atomic, r.ret)
 Skip(St) == SRes(St, "skip", FALSE, NoRet)
@@ -495,9 +497,9 @@ A_Merge(C, R) ==
                        !.ann = [x \in AllIds |-> IF x \in (C1.rxns \ C.rxns) THEN R.ann[x] ELSE C1.ann[x]],
                        !.note = [x \in AllIds |-> IF x \in (C1.rxns \ C.rxns) THEN R.note[x] ELSE C1.note[x]],
                        !.xcols = @ \cup R.xcols,
-                       \* ("constraints are assumed to be the same if they have the same name": a plain row of
-                       \* right that is named like a metabolite of left is not copied)
-                       !.xrows = (@ \cup R.xrows \cup R.mets) \ C1.mets]
+                       \* custom rows only ("assumed to be the same if they have the same name": a row of right named
+                       \* like a metabolite of left is not copied); mass balances of right's metabolites are not custom
+                       !.xrows = (@ \cup R.xrows) \ C1.mets]
   IN Ok(C2)
 
 Apply(op, St) ==
@@ -565,7 +567,8 @@ Apply(op, St) ==
   ELSE IF op.a = "ReAddDetached" THEN
        IF ~St.det[s][op.r].present \/ op.r \in St.m[s].rxns THEN Skip(St)
        ELSE LET d == St.det[s][op.r] IN
-            Lift(St, s, Ok(AddRxns(St.m[s], <<[id |-> op.r, st |-> d.st, lb |-> d.lb, ub |-> d.ub, rule |-> d.rule]>>)))
+            Lift(St, s, Ok([AddRxns(St.m[s], <<[id |-> op.r, st |-> d.st, lb |-> d.lb, ub |-> d.ub, rule |-> d.rule]>>)
+                              EXCEPT !.sbo[op.r] = d.sbo, !.ann[op.r] = d.ann, !.note[op.r] = d.note]))
   ELSE IF op.a = "DetachedSetBounds" /\ St.det[s][op.r].present /\ op.r \notin St.m[s].rxns /\ op.lo <= op.hi THEN
        LET r == IF Len(St.ctx[s]) > 0 THEN Lift([St EXCEPT !.taint[s] = TRUE], s, Ok(St.m[s])) ELSE Lift(St, s, Ok(St.m[s])) IN
        SRes([r.st EXCEPT !.det[s][op.r].lb = op.lo, !.det[s][op.r].ub = op.hi], "none", TRUE, NoRet)
